@@ -11,43 +11,12 @@ For every kernel `k`:
 The kernels are tied to /repo by the correspondence run (outcome class and value on a boundary pool).
 Everything outside the kernels is exploration, not proof (see props/C06.json).
 -/
-import KotoVerif.Model.Guards
+import KotoVerif.Lemmas.C06
 
 namespace KotoVerif.C06
 open KotoVerif.Guards
 
-macro "arith" : tactic =>
-  `(tactic| ((try simp only [inI64, inI32, inUsize, inU32, inU8, inI8, inLen, I64_MIN, I64_MAX, I32_MIN, I32_MAX,
-      USIZE_MAX, U32_MAX, U8_MAX, I8_MIN, I8_MAX] at *) <;> omega))
-
-theorem ckI64_ok {x : Int} (h : inI64 x) : ckI64 x = .ok x := by
-  unfold ckI64; unfold inI64 at h; simp [h.1, h.2]
-theorem ckI32_ok {x : Int} (h : inI32 x) : ckI32 x = .ok x := by
-  unfold ckI32; unfold inI32 at h; simp [h.1, h.2]
-theorem ckUsize_ok {x : Int} (h : inUsize x) : ckUsize x = .ok x := by
-  unfold ckUsize; unfold inUsize at h; simp [h.1, h.2]
-theorem ckU32_ok {x : Int} (h : inU32 x) : ckU32 x = .ok x := by
-  unfold ckU32; unfold inU32 at h; simp [h.1, h.2]
-theorem ckU8_ok {x : Int} (h : inU8 x) : ckU8 x = .ok x := by
-  unfold ckU8; unfold inU8 at h; simp [h.1, h.2]
-
-@[simp] theorem bind_ok {α β : Type} (a : α) (f : α → Res β) : (Res.ok a).bind f = f a := rfl
-@[simp] theorem bind_panic {α β : Type} (f : α → Res β) : (Res.panic : Res α).bind f = .panic := rfl
-@[simp] theorem bind_err {α β : Type} (f : α → Res β) : (Res.err : Res α).bind f = .err := rfl
-
 /-! ## KRange::as_bounded_range -/
-
-/-- the triple of a well-formed range consists of `i64` values -/
-theorem triple_wf (r : KRange) (h : KRange.wf r) : inI64 r.triple.1 ∧ inI64 r.triple.2.1 := by
-  obtain ⟨st, sp⟩ := r
-  have hs := h.1
-  have he := h.2
-  unfold KRange.triple
-  match st, sp with
-  | none, none => simp; constructor <;> arith
-  | some s, none => simp; exact ⟨hs s rfl, by arith⟩
-  | none, some (e, i) => simp; exact ⟨by arith, he e i rfl⟩
-  | some s, some (e, i) => simp; exact ⟨hs s rfl, he e i rfl⟩
 
 /-- **exact characterisation**: `as_bounded_range` panics iff the range is inclusive and ends at
 `i64::MAX` (finding F-C06-5: there is no guard in the code) -/
@@ -87,3 +56,852 @@ example : KRange.wf ⟨some 0, some (10, true)⟩ ∧ ¬ KRange.endsAtMax ⟨som
   refine ⟨⟨?_, ?_⟩, by decide⟩
   · intro s hs; cases hs; arith
   · intro e i he; cases he; arith
+
+/-- result of `as_bounded_range` when it does not panic: bounds are `i64` values, ordered -/
+theorem asBoundedRange_ok (r : KRange) (h : KRange.wf r) (hg : ¬ r.endsAtMax) :
+    ∃ s e, asBoundedRange r = .ok (s, e) ∧ inI64 s ∧ inI64 e ∧ s ≤ e := by
+  obtain ⟨st, sp⟩ := r
+  have hs := h.1
+  have he := h.2
+  unfold KRange.endsAtMax at hg
+  unfold asBoundedRange KRange.triple
+  match st, sp with
+  | none, none => exact ⟨I64_MIN, I64_MAX, by simp; arith, by arith, by arith, by arith⟩
+  | some s, none =>
+    have := hs s rfl
+    exact ⟨s, max I64_MAX s, by simp, this, by arith, by arith⟩
+  | none, some (e, false) =>
+    have := he e false rfl
+    exact ⟨I64_MIN, max e I64_MIN, by simp, by arith, by arith, by arith⟩
+  | some s, some (e, false) =>
+    have := he e false rfl
+    have := hs s rfl
+    exact ⟨s, max e s, by simp, this, by arith, by arith⟩
+  | none, some (e, true) =>
+    have hb := he e true rfl
+    have hne : e ≠ I64_MAX := fun h => hg (by simp [h])
+    refine ⟨I64_MIN, max (e + 1) I64_MIN, ?_, by arith, by arith, by arith⟩
+    simp only [ite_true]
+    rw [ckI64_ok (by arith)]; rfl
+  | some s, some (e, true) =>
+    have hb := he e true rfl
+    have := hs s rfl
+    have hne : e ≠ I64_MAX := fun h => hg (by simp [h])
+    refine ⟨s, max (e + 1) s, ?_, this, by arith, by arith⟩
+    simp only [ite_true]
+    rw [ckI64_ok (by arith)]; rfl
+
+/-! ## KRange::size -/
+
+/-- `size (i64::MIN..i64::MAX)` (finding F-C06-7) -/
+theorem rangeSize_panic_witness :
+    rangeSize ⟨some (-9223372036854775808), some (9223372036854775807, false)⟩ = .panic := by decide
+
+/-- `size` is safe when `as_bounded_range` is and the distance fits an `i64` -/
+theorem rangeSize_partial (r : KRange) (h : KRange.wf r) (hg : ¬ r.endsAtMax)
+    (hd : ∀ s e, asBoundedRange r = .ok (s, e) → e - s ≤ I64_MAX) : rangeSize r ≠ .panic := by
+  obtain ⟨s, e, hok, hs, he, hle⟩ := asBoundedRange_ok r h hg
+  unfold rangeSize
+  split
+  · rw [hok]; simp only [bind_ok]
+    have := hd s e hok
+    rw [ckI64_ok (by arith)]; simp
+  · simp
+
+example : rangeSize ⟨some 2, some (5, true)⟩ = .ok (some 4) := by decide
+
+/-! ## KRange::contains, indices, intersection -/
+
+theorem rangeContains_total (r : KRange) (h : KRange.wf r) (hg : ¬ r.endsAtMax) (n : Int) :
+    rangeContains r n ≠ .panic := by
+  obtain ⟨s, e, hok, _⟩ := asBoundedRange_ok r h hg
+  unfold rangeContains; rw [hok]; simp
+
+/-- `indices(max_index)` never panics (the two `clamp` calls have `min <= max`) and yields a valid
+slice range `a ≤ b ≤ max_index`, for every container length -/
+theorem rangeIndices_total (r : KRange) (h : KRange.wf r) (hg : ¬ r.endsAtMax) (m : Int) (hm : inLen m) :
+    ∃ a b, rangeIndices r m = .ok (a, b) ∧ 0 ≤ a ∧ a ≤ b ∧ b ≤ m := by
+  obtain ⟨s, e, hok, hs, he, hle⟩ := asBoundedRange_ok r h hg
+  unfold rangeIndices; rw [hok]; simp only [bind_ok]
+  have hc : castI64 m = m := by unfold castI64; split <;> arith
+  rw [hc]
+  unfold clamp
+  have h0 : (0 : Int) ≤ m := by arith
+  simp only [h0, ite_true, bind_ok]
+  have h1 : max 0 (min s m) ≤ m := by omega
+  simp only [h1, ite_true, bind_ok]
+  exact ⟨_, _, rfl, by omega, by omega, by omega⟩
+
+theorem rangeIntersection_total (a b : KRange) (ha : KRange.wf a) (hb : KRange.wf b)
+    (hga : ¬ a.endsAtMax) (hgb : ¬ b.endsAtMax) : rangeIntersection a b ≠ .panic := by
+  obtain ⟨s1, e1, hok1, _⟩ := asBoundedRange_ok a ha hga
+  obtain ⟨s2, e2, hok2, _⟩ := asBoundedRange_ok b hb hgb
+  unfold rangeIntersection; rw [hok1, hok2]; simp only [bind_ok]
+  split <;> simp
+
+example : rangeIndices ⟨some (-3), none⟩ 4 = .ok (0, 4) := by decide
+example : rangeIntersection ⟨some 10, some (20, false)⟩ ⟨some 15, some (25, false)⟩ = .ok (some (15, 20)) := by decide
+
+/-! ## KRange::pop_front / pop_back -/
+
+/-- `*start += 1` is guarded by `start < end`: no overflow in either representation -/
+theorem popFront_total (large : Bool) (s e : Int) (incl : Bool)
+    (hs : if large then inI64 s else inI32 s) (he : if large then inI64 e else inI32 e) :
+    popFront large s e incl ≠ .panic := by
+  unfold popFront
+  cases large <;> simp only [Bool.false_eq_true, ite_false, ite_true] at hs he ⊢
+  · split
+    · rw [ckI32_ok (by arith)]; simp
+    · split <;> (try split) <;> simp
+  · split
+    · rw [ckI64_ok (by arith)]; simp
+    · split <;> (try split) <;> simp
+
+/-- `*end - 1` / `*end -= 1` are guarded by `start < end` -/
+theorem popBack_total (large : Bool) (s e : Int) (incl : Bool)
+    (hs : if large then inI64 s else inI32 s) (he : if large then inI64 e else inI32 e) :
+    popBack large s e incl ≠ .panic := by
+  unfold popBack
+  cases large <;> simp only [Bool.false_eq_true, ite_false, ite_true] at hs he ⊢
+  · split
+    · have h1 : ckI32 (e - 1) = .ok (e - 1) := ckI32_ok (by arith)
+      cases incl <;> simp [h1]
+    · split <;> (try split) <;> simp
+  · split
+    · have h1 : ckI64 (e - 1) = .ok (e - 1) := ckI64_ok (by arith)
+      cases incl <;> simp [h1]
+    · split <;> (try split) <;> simp
+
+example : popFront false 2147483646 2147483647 true = .ok (some 2147483646, 2147483647, 2147483647, true) := by decide
+example : popBack true (-9223372036854775808) (-9223372036854775807) false
+    = .ok (some (-9223372036854775808), -9223372036854775808, -9223372036854775808, false) := by decide
+
+/-! ## signed_index_to_unsigned, validate_index, run_index, run_slice, run_temp_index -/
+
+/-- total for every `i8` index and every size; a negative index lands inside `0..=size` -/
+theorem signedIndexToUnsigned_total (index size : Int) (hi : inI8 index) (hs : inUsize size) :
+    ∃ i, signedIndexToUnsigned index size = .ok i ∧ 0 ≤ i ∧ (index < 0 → i ≤ size) := by
+  unfold signedIndexToUnsigned
+  split
+  · exact ⟨size - min (-index) size, ckUsize_ok (by arith), by arith, fun _ => by arith⟩
+  · exact ⟨index, rfl, by arith, fun h => by arith⟩
+
+/-- `validate_index` only lets indices below the size through -/
+theorem validateIndex_in_bounds (n : NumView) (hn : n.wf) (len i : Int)
+    (h : validateIndex n (some len) = .ok i) : 0 ≤ i ∧ i < len := by
+  unfold validateIndex at h
+  split at h
+  · cases h
+  · simp only at h
+    split at h
+    · cases h
+    · cases h; exact ⟨hn.1, by omega⟩
+
+theorem validateIndex_total (n : NumView) (size : Option Int) : validateIndex n size ≠ .panic := by
+  unfold validateIndex
+  split
+  · simp
+  · split
+    · split <;> simp
+    · simp
+
+/-- `l[n]`, `t[n]`, `m[n]`: the guard protects `data[index]` for every number -/
+theorem runIndexSeqNum_total (len : Int) (n : NumView) (hn : n.wf) : runIndexSeqNum len n ≠ .panic := by
+  unfold runIndexSeqNum
+  cases hv : validateIndex n (some len) with
+  | panic => exact absurd hv (validateIndex_total n _)
+  | err => simp
+  | ok i =>
+    have := validateIndex_in_bounds n hn len i hv
+    simp [sliceIndex, this.1, this.2]
+
+/-- `l[range]`, `t[range]`: `indices` yields a valid slice range, `data[indices]` cannot panic -/
+theorem runIndexSeqRange_total (len : Int) (hl : inLen len) (r : KRange) (h : KRange.wf r) (hg : ¬ r.endsAtMax) :
+    runIndexSeqRange len r ≠ .panic := by
+  obtain ⟨a, b, hok, h0, hab, hb⟩ := rangeIndices_total r h hg len hl
+  unfold runIndexSeqRange; rw [hok]; simp [sliceRange, h0, hab, hb]
+
+/-- `s[n]`: `index + 1` cannot overflow behind the guard -/
+theorem runIndexStrNum_total (len : Int) (hl : inLen len) (n : NumView) (hn : n.wf) :
+    runIndexStrNum len n ≠ .panic := by
+  unfold runIndexStrNum
+  cases hv : validateIndex n (some len) with
+  | panic => exact absurd hv (validateIndex_total n _)
+  | err => simp
+  | ok i =>
+    have := validateIndex_in_bounds n hn len i hv
+    simp only [bind_ok]
+    rw [ckUsize_ok (by arith)]; simp
+
+/-- `(9223372036854775807..)[1]` (finding F-C06-11): with no end there is no size, hence no bounds
+check, and `start + index` overflows -/
+theorem runIndexRangeNum_panic_witness :
+    runIndexRangeNum ⟨some 9223372036854775807, none⟩ ⟨false, true, true, 1, 1⟩ = .panic := by decide
+
+/-- for a bounded range whose size can be computed the index arithmetic is safe -/
+theorem runIndexRangeNum_partial (r : KRange) (h : KRange.wf r) (hg : ¬ r.endsAtMax) (hb : r.isBounded = true)
+    (n : NumView) (hn : n.wf) (hsz : rangeSize r ≠ .panic) : runIndexRangeNum r n ≠ .panic := by
+  obtain ⟨s, e, hok, hs, he, hle⟩ := asBoundedRange_ok r h hg
+  unfold runIndexRangeNum
+  cases hst : r.start with
+  | none => simp
+  | some s0 =>
+    simp only
+    have hs0 : s0 = s := by
+      obtain ⟨st, sp⟩ := r
+      unfold asBoundedRange KRange.triple at hok
+      simp only at hst; subst hst
+      match sp with
+      | none => simp at hok; exact hok.1
+      | some (e0, false) => simp at hok; exact hok.1
+      | some (e0, true) =>
+        simp only [ite_true] at hok
+        cases hc : ckI64 (e0 + 1) with
+        | panic => rw [hc] at hok; cases hok
+        | err => rw [hc] at hok; cases hok
+        | ok v => rw [hc] at hok; simp at hok; exact hok.1
+    subst hs0
+    unfold rangeSize at hsz ⊢
+    rw [hb] at hsz ⊢
+    simp only [ite_true] at hsz ⊢
+    rw [hok] at hsz ⊢
+    simp only [bind_ok] at hsz ⊢
+    have hm : max e s0 = e := by omega
+    rw [hm] at hsz ⊢
+    unfold ckI64 at hsz ⊢
+    split at hsz
+    · rename_i hd
+      simp only [hd, and_self, ite_true, bind_ok]
+      unfold validateIndex
+      split
+      · simp
+      · simp only
+        split
+        · simp
+        · rename_i hlt
+          simp only [bind_ok]
+          have hu := hn.1
+          have hc : castI64 n.usize = n.usize := by unfold castI64; split <;> arith
+          rw [hc]
+          split
+          · simp
+          · rename_i hbad; exfalso; apply hbad; arith
+    · simp at hsz
+
+example : runIndexRangeNum ⟨some 10, some (14, false)⟩ ⟨false, true, true, 3, 3⟩ = .ok 13 := by decide
+
+theorem runSliceSeq_total (len index : Int) (hi : inI8 index) (hl : inUsize len) (sliceTo : Bool) :
+    runSliceSeq len index sliceTo ≠ .panic := by
+  obtain ⟨i, hok, _⟩ := signedIndexToUnsigned_total index len hi hl
+  unfold runSliceSeq; rw [hok]; simp only [bind_ok]; split <;> simp
+
+theorem runTempIndexSeq_total (len index : Int) (hi : inI8 index) (hl : inUsize len) :
+    runTempIndexSeq len index ≠ .panic := by
+  obtain ⟨i, hok, _⟩ := signedIndexToUnsigned_total index len hi hl
+  unfold runTempIndexSeq; rw [hok]; simp
+
+theorem runTempIndexStr_total (len index : Int) (hi : inI8 index) (hl : inLen len) :
+    runTempIndexStr len index ≠ .panic := by
+  obtain ⟨i, hok, h0, hneg⟩ := signedIndexToUnsigned_total index len hi (by arith)
+  unfold runTempIndexStr; rw [hok]; simp only [bind_ok]
+  have : i ≤ I64_MAX := by
+    by_cases hlt : index < 0
+    · have := hneg hlt; arith
+    · unfold signedIndexToUnsigned at hok; simp [hlt] at hok; subst hok; arith
+  rw [ckUsize_ok (by arith)]; simp
+
+/-- the `|index| < count` guard protects `registers[start + index]` whenever the temporary tuple's
+registers exist (`start + count ≤ registers.len()`) -/
+theorem runTempIndexTemp_total (regsLen start count index : Int) (hi : inI8 index)
+    (hs : 0 ≤ start) (hc : 0 ≤ count) (hfit : start + count ≤ regsLen) (hr : regsLen ≤ I64_MAX) :
+    runTempIndexTemp regsLen start count index ≠ .panic := by
+  unfold runTempIndexTemp signedIndexToUnsigned
+  by_cases hlt : index < 0
+  · simp only [hlt, ite_true]
+    by_cases hg : -index < count
+    · simp only [hg, ite_true]
+      rw [ckUsize_ok (by arith)]; simp only [bind_ok]
+      rw [ckUsize_ok (by arith)]; simp only [bind_ok]
+      unfold sliceIndex
+      have : 0 ≤ start + (count - min (-index) count) ∧ start + (count - min (-index) count) < regsLen := by omega
+      simp [this]
+    · simp [hg]
+  · simp only [hlt, ite_false]
+    by_cases hg : index < count
+    · simp only [hg, ite_true, bind_ok]
+      rw [ckUsize_ok (by arith)]; simp only [bind_ok]
+      unfold sliceIndex
+      have : 0 ≤ start + index ∧ start + index < regsLen := by omega
+      simp [this]
+    · simp [hg]
+
+/-- nested pattern on `..=i64::MAX` / on a range starting at `i64::MAX` / ending at `i64::MIN` -/
+theorem runTempIndexRange_panic_witness :
+    runTempIndexRange ⟨some 0, some (9223372036854775807, true)⟩ (-1) = .panic ∧
+    runTempIndexRange ⟨some 9223372036854775807, some (9223372036854775807, false)⟩ 1 = .panic ∧
+    runTempIndexRange ⟨some 0, some (-9223372036854775808, false)⟩ (-1) = .panic := by decide
+
+/-- the arithmetic is safe when the bounds keep 128 away from the `i64` limits -/
+theorem runTempIndexRange_partial (r : KRange) (h : KRange.wf r) (hg : ¬ r.endsAtMax) (index : Int) (hi : inI8 index)
+    (hs : ∀ s, r.start = some s → s ≤ I64_MAX - 128)
+    (he : ∀ e i, r.stop = some (e, i) → I64_MIN + 128 ≤ e ∧ e ≤ I64_MAX - 1) :
+    runTempIndexRange r index ≠ .panic := by
+  unfold runTempIndexRange
+  split
+  · cases hsp : r.stop with
+    | none => simp
+    | some p =>
+      obtain ⟨e, incl⟩ := p
+      have hb := he e incl hsp
+      have hw := h.2 e incl hsp
+      simp only
+      cases incl
+      · simp only [Bool.false_eq_true, ite_false, bind_ok]
+        rw [ckI64_ok (by arith)]; simp only [bind_ok]
+        cases hc : rangeContains r (e + index) with
+        | panic => exact absurd hc (rangeContains_total r h hg _)
+        | err => simp
+        | ok c => simp
+      · simp only [ite_true]
+        rw [ckI64_ok (by arith)]; simp only [bind_ok]
+        rw [ckI64_ok (by arith)]; simp only [bind_ok]
+        cases hc : rangeContains r (e + 1 + index) with
+        | panic => exact absurd hc (rangeContains_total r h hg _)
+        | err => simp
+        | ok c => simp
+  · cases hst : r.start with
+    | none => simp
+    | some s =>
+      have hb := hs s hst
+      have hw := h.1 s hst
+      simp only
+      rw [ckI64_ok (by arith)]; simp only [bind_ok]
+      cases hc : rangeContains r (s + index) with
+      | panic => exact absurd hc (rangeContains_total r h hg _)
+      | err => simp
+      | ok c => simp
+
+/-! ## run_index_assign -/
+
+theorem indexAssignListNum_total (len : Int) (n : NumView) (hn : n.wf) : indexAssignListNum len n ≠ .panic := by
+  unfold indexAssignListNum sliceIndex
+  split
+  · rename_i hg; have := hn.1; simp [this, hg.2]
+  · simp
+
+theorem indexAssignListRange_total (len : Int) (hl : inLen len) (r : KRange) (h : KRange.wf r) (hg : ¬ r.endsAtMax) :
+    indexAssignListRange len r ≠ .panic := by
+  obtain ⟨a, b, hok, h0, hab, hb⟩ := rangeIndices_total r h hg len hl
+  unfold indexAssignListRange; rw [hok]; simp only [bind_ok]
+  split
+  · unfold sliceIndex
+    have : 0 ≤ b - 1 ∧ b - 1 < len := by omega
+    rw [if_pos this]; simp
+  · simp
+
+/-- a NaN or negative index never reaches the indexing (runtime error) -/
+theorem indexAssignListNum_guard (len : Int) (n : NumView) (h : n.geZeroF = false) :
+    indexAssignListNum len n = .err := by
+  unfold indexAssignListNum; simp [h]
+
+/-! ### map arm -/
+
+/-- **before commit 6a9dccd** (finding F-C06-4): `m = {a: 1, b: 2, c: 3}; m[0] = ('c', 9)` -/
+theorem indexAssignMapUnguarded_panic_witness :
+    indexAssignMapUnguarded [0, 1, 2] true 0 true 2 = .panic := by decide
+
+/-- the unguarded swap dance is safe exactly when the key is new after the removal -/
+theorem indexAssignMapUnguarded_partial (ks : List Nat) (ge : Bool) (u : Nat) (isPair : Bool) (key : Nat)
+    (hnew : key ∉ swapRemoveIndex ks u) : indexAssignMapUnguarded ks ge u isPair key ≠ .panic := by
+  unfold indexAssignMapUnguarded
+  split
+  · rename_i hg
+    split
+    · apply swapIndices_total
+      · rw [length_insertKey, length_swapRemoveIndex ks u hg.2]; simp only [hnew, ite_false]; omega
+      · rw [length_insertKey, length_swapRemoveIndex ks u hg.2]; simp only [hnew, ite_false]; omega
+    · simp
+  · simp
+
+/-- **current code**: with the key-collision guard the map arm never panics — for every map, index,
+value shape and key. The remaining case `key` already at position `u` is safe because positions are
+distinct (`Nodup`): removing entry `u` removes the only occurrence. -/
+theorem indexAssignMap_total (ks : List Nat) (hnd : ks.Nodup) (ge : Bool) (u : Nat) (isPair : Bool) (key : Nat) :
+    indexAssignMap ks ge u isPair key ≠ .panic := by
+  unfold indexAssignMap
+  split
+  · rename_i hg
+    split
+    · have hlen := length_swapRemoveIndex ks u hg.2
+      cases hk : indexOfKey ks key with
+      | none =>
+        simp only
+        have hnot : key ∉ swapRemoveIndex ks u := fun hm => indexOfKey_none ks key hk (mem_swapRemoveIndex ks u key hm)
+        apply swapIndices_total
+        · rw [length_insertKey, hlen]; simp only [hnot, ite_false]; omega
+        · rw [length_insertKey, hlen]; simp only [hnot, ite_false]; omega
+      | some j =>
+        simp only
+        split
+        · simp
+        · rename_i hju
+          have hju : j = u := by omega
+          subst hju
+          -- whether or not the key survives the removal, both indices stay in range only if the
+          -- key is re-appended; Nodup makes it disappear with entry `j`
+          have hnot : key ∉ swapRemoveIndex ks j := by
+            intro hm
+            unfold swapRemoveIndex at hm
+            simp only [hg.2, ite_true] at hm
+            cases hl : ks.getLast? with
+            | none => rw [hl] at hm; have : ks = [] := List.getLast?_eq_none_iff.mp hl; subst this; simp at hg
+            | some last =>
+              rw [hl] at hm; simp only at hm
+              have hkj := indexOfKey_some ks key j hk
+              -- positions of `key` in `(ks.set j last).dropLast`
+              obtain ⟨i, hi, hget⟩ := List.getElem_of_mem hm
+              rw [List.length_dropLast, List.length_set] at hi
+              rw [List.getElem_dropLast, List.getElem_set] at hget
+              have hlast : ks[ks.length - 1]? = some last := by
+                rw [List.getLast?_eq_getElem?] at hl; exact hl
+              split at hget
+              · -- i = j: the moved last element equals key; then key sits at j and at length-1
+                rename_i hij
+                subst hget
+                have h1 : ks[j]? = ks[ks.length - 1]? := by rw [hkj, hlast]
+                have := (List.getElem?_inj (by omega) hnd).mp h1
+                omega
+              · rename_i hij
+                have h1 : ks[i]? = ks[j]? := by
+                  rw [hkj, List.getElem?_eq_getElem (by omega)]; simp [hget]
+                have := (List.getElem?_inj (by omega) hnd).mp h1
+                omega
+          apply swapIndices_total
+          · rw [length_insertKey, hlen]; simp only [hnot, ite_false]; omega
+          · rw [length_insertKey, hlen]; simp only [hnot, ite_false]; omega
+    · simp
+  · simp
+
+example : indexAssignMap [0, 1, 2] true 0 true 7 = .ok [7, 1, 2] := by decide
+example : indexAssignMap [0, 1, 2] true 0 true 2 = .err := by decide
+example : indexAssignMap [0, 1, 2] true 1 true 1 = .ok [0, 1, 2] := by decide
+
+/-! ## remainder, power, shifts, abs, step_to, range.expanded -/
+
+/-- `run_remainder` special-cases a zero integer divisor: total for all integers -/
+theorem runRemainder_total (a b : Int) : runRemainder a b ≠ .panic := by
+  unfold runRemainder
+  by_cases hb : b = 0
+  · simp [hb]
+  · simp only [hb, ite_false]
+    unfold wrappingRem
+    simp only [hb, ite_false]
+    by_cases h1 : b = -1 <;> simp [h1, Res.map']
+
+/-- `z = 10; z %= 0` (finding F-C06-1): `run_remainder_assign` lacks that special case -/
+theorem runRemainderAssign_panic_witness : runRemainderAssign 10 0 = .panic := by decide
+
+theorem runRemainderAssign_partial (a b : Int) (hb : b ≠ 0) : runRemainderAssign a b ≠ .panic := by
+  unfold runRemainderAssign wrappingRem
+  simp only [hb, ite_false]; split <;> simp
+
+/-- exactly the zero divisor panics -/
+theorem runRemainderAssign_panic_iff (a b : Int) : runRemainderAssign a b = .panic ↔ b = 0 := by
+  constructor
+  · intro h; apply Classical.byContradiction; intro hb; exact runRemainderAssign_partial a b hb h
+  · intro h; subst h; unfold runRemainderAssign wrappingRem; simp
+
+/-- `wrapping_pow` cannot panic -/
+theorem powInt_total (a b : Int) : powInt a b ≠ .panic := by unfold powInt; simp
+
+/-- `1.shift_left 64` (finding F-C06-6): the guard is only `b >= 0` -/
+theorem shiftLeft_panic_witness : shiftLeft 1 ⟨false, true, true, 64, 64⟩ = .panic := by decide
+theorem shiftRight_panic_witness : shiftRight 1 ⟨false, true, true, 64, 64⟩ = .panic := by decide
+
+theorem shiftLeft_partial (a : Int) (b : NumView) (hb : b.i64 < 64) : shiftLeft a b ≠ .panic := by
+  unfold shiftLeft; split <;> simp_all
+theorem shiftRight_partial (a : Int) (b : NumView) (hb : b.i64 < 64) : shiftRight a b ≠ .panic := by
+  unfold shiftRight; split <;> simp_all
+
+/-- exactly the amounts `>= 64` that pass the `b >= 0` guard panic -/
+theorem shiftLeft_panic_iff (a : Int) (b : NumView) :
+    shiftLeft a b = .panic ↔ (b.geZeroI = true ∧ 64 ≤ b.i64) := by
+  unfold shiftLeft
+  constructor
+  · intro h
+    split at h
+    · rename_i hg; split at h
+      · cases h
+      · exact ⟨hg, by omega⟩
+    · cases h
+  · intro ⟨hg, h64⟩
+    have : ¬ b.i64 < 64 := by omega
+    simp [hg, this]
+
+/-- `(-9223372036854775807 - 1).abs()` (finding F-C06-9) -/
+theorem absInt_panic_witness : absInt (-9223372036854775808) = .panic := by decide
+theorem absInt_partial (a : Int) (h : inI64 a) (hmin : a ≠ I64_MIN) : absInt a ≠ .panic := by
+  unfold absInt; rw [ckI64_ok (by split <;> arith)]; simp
+
+/-- `1.step_to 5, 0`; `0.step_to i64::MIN`; `i64::MIN.step_to 1` (finding F-C06-8) -/
+theorem stepToNew_panic_witness :
+    stepToNew 1 5 0 = .panic ∧ stepToNew 0 (-9223372036854775808) 1 = .panic ∧
+    stepToNew (-9223372036854775808) 1 1 = .panic ∧ stepToNew 0 (-1) (-9223372036854775808) = .panic := by decide
+
+/-- moderate operands and a positive step are safe -/
+theorem stepToNew_partial (start target step : Int)
+    (hs : -4611686018427387904 ≤ start ∧ start ≤ 4611686018427387903)
+    (ht : -4611686018427387904 ≤ target ∧ target ≤ 4611686018427387903)
+    (hp : 1 ≤ step ∧ step ≤ I64_MAX) : stepToNew start target step ≠ .panic := by
+  unfold stepToNew
+  rw [ckI64_ok (by arith)]; simp only [bind_ok]
+  rw [ckI64_ok (by split <;> arith)]; simp only [bind_ok]
+  have hne : step ≠ 0 := by omega
+  simp only [hne, ite_false]
+  -- |d| / step is between 0 and |d|
+  have habs : 0 ≤ (if target - start < 0 then -(target - start) else target - start) := by split <;> omega
+  have hle : (if target - start < 0 then -(target - start) else target - start) ≤ 9223372036854775807 := by
+    split <;> omega
+  generalize hq : (if target - start < 0 then -(target - start) else target - start) = ad at *
+  have hdiv0 : 0 ≤ Int.tdiv ad step := Int.tdiv_nonneg habs (by omega)
+  have hdivle : Int.tdiv ad step ≤ ad := by
+    rw [Int.tdiv_eq_ediv_of_nonneg habs]
+    exact Int.ediv_le_self _ habs
+  have hmul : step * Int.tdiv ad step ≤ ad := by
+    rw [Int.tdiv_eq_ediv_of_nonneg habs]
+    exact Int.mul_ediv_self_le (by omega)
+  have hmul0 : 0 ≤ step * Int.tdiv ad step := Int.mul_nonneg (by omega) hdiv0
+  rw [ckI64_ok (by arith)]; simp only [bind_ok]
+  by_cases hlt : target < start
+  · simp only [hlt, ite_true]
+    rw [ckI64_ok (by arith)]; simp only [bind_ok]
+    have hm : -step * Int.tdiv ad step = -(step * Int.tdiv ad step) := Int.neg_mul _ _
+    have had : ad = start - target := by rw [← hq]; split <;> omega
+    rw [ckI64_ok (by arith)]; simp only [bind_ok]
+    rw [ckI64_ok (by arith)]; simp
+  · simp only [hlt, ite_false, bind_ok]
+    have had : ad = target - start := by rw [← hq]; split <;> omega
+    rw [ckI64_ok (by arith)]; simp only [bind_ok]
+    rw [ckI64_ok (by arith)]; simp
+
+/-- `(0..10).expanded 9223372036854775807` (finding F-C06-10) -/
+theorem rangeExpanded_panic_witness : rangeExpanded 0 10 9223372036854775807 = .panic := by decide
+theorem rangeExpanded_partial (s e n : Int) (h1 : inI64 (s - n)) (h2 : inI64 (e + n)) :
+    rangeExpanded s e n ≠ .panic := by
+  unfold rangeExpanded; rw [ckI64_ok h1, ckI64_ok h2]; simp
+
+/-! ## list.insert / remove / get / resize -/
+
+/-- the guard `n < 0.0 || index > len` protects `Vec::insert` for every number -/
+theorem listInsert_total (len : Int) (n : NumView) : listInsert len n ≠ .panic := by
+  unfold listInsert
+  split
+  · simp
+  · rename_i h; have : n.usize ≤ len := by omega
+    simp [this]
+
+/-- a negative number is rejected (DESIGN §11: removing this guard turns `l.insert -1, x` from an
+error into an insertion at 0 — visible to the correspondence as `err` vs `ok`) -/
+theorem listInsert_negative_is_error (len : Int) (n : NumView) (h : n.ltZeroF = true) :
+    listInsert len n = .err := by unfold listInsert; simp [h]
+
+theorem listRemove_total (len : Int) (n : NumView) : listRemove len n ≠ .panic := by
+  unfold listRemove
+  split
+  · simp
+  · rename_i h; have : n.usize < len := by omega
+    simp [this]
+
+theorem listGet_total (len : Int) (n : NumView) : listGet len n ≠ .panic := by
+  unfold listGet; split <;> simp
+
+theorem listResize_total (n : NumView) : listResize n ≠ .panic := by
+  unfold listResize; split <;> simp
+
+example : listInsert 4 ⟨false, true, true, 4, 4⟩ = .ok 4 := by decide
+example : listRemove 4 ⟨false, true, true, 4, 4⟩ = .err := by decide
+
+/-! ## string iterators: `size_hint` after any number of `next` calls -/
+
+/-- `size_hint` is safe exactly while the cursor has not passed the end -/
+theorem sizeHint_panic_iff (c : Cursor) (hl : inLen c.len) (hp : 0 ≤ c.pos ∧ c.pos ≤ I64_MAX + 4) :
+    sizeHint c = .panic ↔ c.len < c.pos := by
+  unfold sizeHint ckUsize
+  constructor
+  · intro h; split at h
+    · cases h
+    · arith
+  · intro h
+    have : ¬ (0 ≤ c.len - c.pos ∧ c.len - c.pos ≤ USIZE_MAX) := by arith
+    rw [if_neg this]
+
+/-- `Bytes`: `index ≤ len` is an invariant of `next`, for every state reachable from `new` -/
+theorem bytesNext_inv (c c' : Cursor) (h : c.pos ≤ c.len) (hn : bytesNext c = some c') :
+    c'.pos ≤ c'.len ∧ c'.len = c.len := by
+  unfold bytesNext at hn
+  split at hn
+  · cases hn; simp; omega
+  · cases hn
+
+/-- … hence `Bytes::size_hint` never underflows, after any number of `next` calls -/
+theorem bytes_sizeHint_total (len : Int) (hl : inLen len) (n k : Nat) :
+    (bytesRun n ⟨len, 0⟩ k).2 ≠ .panic := by
+  suffices ∀ n (c : Cursor) k, c.len = len → 0 ≤ c.pos → c.pos ≤ c.len → (bytesRun n c k).2 ≠ .panic from
+    this n ⟨len, 0⟩ k rfl (by simp) (by simp; arith)
+  intro n
+  induction n with
+  | zero =>
+    intro c k hlen h0 hle
+    unfold bytesRun
+    intro hp
+    have := (sizeHint_panic_iff c (by rw [hlen]; exact hl) ⟨h0, by arith⟩).mp hp
+    omega
+  | succ n ih =>
+    intro c k hlen h0 hle
+    unfold bytesRun
+    cases hn : bytesNext c with
+    | none =>
+      simp only
+      intro hp
+      have := (sizeHint_panic_iff c (by rw [hlen]; exact hl) ⟨h0, by arith⟩).mp hp
+      omega
+    | some c' =>
+      simp only
+      have hinv := bytesNext_inv c c' hle hn
+      have hpos : 0 ≤ c'.pos := by
+        unfold bytesNext at hn; split at hn
+        · cases hn; simp; omega
+        · cases hn
+      exact ih c' (k + 1) (by rw [hinv.2, hlen]) hpos hinv.1
+
+/-- `CharIndices`: a grapheme never extends past the end, so `index ≤ len` is preserved -/
+theorem charIndicesNext_inv (c c' : Cursor) (g : Int) (hg : 1 ≤ g ∧ g ≤ c.len - c.pos)
+    (hn : charIndicesNext c g = some c') : c'.pos ≤ c'.len ∧ c'.len = c.len := by
+  unfold charIndicesNext at hn
+  split at hn
+  · cases hn; simp; omega
+  · cases hn
+
+/-- `i = 'a,b'.split(','); i.next(); i.next(); i.to_list()` (finding F-C06-2): after the last piece
+`start = len + pattern_len` -/
+theorem split_sizeHint_panic_witness : (splitRun [97, 44, 98] [44] 2 ⟨3, 0⟩ []).2 = .panic := by decide
+
+/-- `Split::next` moves the cursor past the end as soon as the pattern is not found any more -/
+theorem splitNext_exhausts (c c' : Cursor) (patLen : Int) (hp : 1 ≤ patLen)
+    (hn : splitNext c patLen none = some c') : c'.len < c'.pos := by
+  unfold splitNext at hn
+  split at hn
+  · cases hn; simp; omega
+  · cases hn
+
+/-- `size_hint` of `Split` is safe as long as the last piece has not been yielded -/
+theorem split_sizeHint_partial (c : Cursor) (hl : inLen c.len) (h0 : 0 ≤ c.pos) (hle : c.pos ≤ c.len) :
+    sizeHint c ≠ .panic := by
+  intro hp
+  have := (sizeHint_panic_iff c hl ⟨h0, by arith⟩).mp hp
+  omega
+
+/-- `i = 'abc'.lines(); i.next(); i.to_list()`: `Lines` sets `start = len + 1` after a last line
+without line break -/
+theorem lines_sizeHint_panic_witness : (linesRun [97, 98, 99] 1 ⟨3, 0⟩ []).2 = .panic := by decide
+
+theorem linesNext_exhausts (c c' : Cursor) (hn : linesNext c none = some c') : c'.len < c'.pos := by
+  unfold linesNext at hn
+  split at hn
+  · cases hn; simp; omega
+  · cases hn
+
+example : (splitRun [97, 44, 98] [44] 1 ⟨3, 0⟩ []).2 = .ok 1 := by decide
+example : (bytesRun 5 ⟨3, 0⟩ 0) = (3, .ok 0) := by decide
+
+/-! ## TupleSlice::with_bounds, StringSlice::{with_bounds, split}, KotoLexer::peek -/
+
+/-- offsets of real containers cannot overflow `usize` when added -/
+theorem withBounds_total (dataLen selfStart bStart bEnd : Int) (ok : Bool)
+    (hs : inLen selfStart) (ha : inLen bStart) (hb : inLen bEnd) :
+    withBounds dataLen selfStart bStart bEnd ok ≠ .panic := by
+  unfold withBounds
+  rw [ckUsize_ok (by arith), ckUsize_ok (by arith)]; simp
+
+/-- outside that guard the addition overflows (direct host call with `usize::MAX`) -/
+theorem withBounds_panic_witness : withBounds 6 1 0 18446744073709551615 true = .panic := by decide
+
+/-- a successful `with_bounds` stays inside the data -/
+theorem withBounds_in_data (dataLen selfStart bStart bEnd : Int) (ok : Bool) (a b : Int)
+    (h : withBounds dataLen selfStart bStart bEnd ok = .ok (some (a, b))) : a ≤ b ∧ b ≤ dataLen := by
+  unfold withBounds at h
+  cases h1 : ckUsize (bStart + selfStart) with
+  | panic => rw [h1] at h; cases h
+  | err => rw [h1] at h; cases h
+  | ok x =>
+    rw [h1] at h; simp only [bind_ok] at h
+    cases h2 : ckUsize (bEnd + selfStart) with
+    | panic => rw [h2] at h; cases h
+    | err => rw [h2] at h; cases h
+    | ok y =>
+      rw [h2] at h; simp only [bind_ok] at h
+      split at h
+      · rename_i hc; cases h; exact ⟨hc.1, hc.2.1⟩
+      · cases h
+
+theorem stringSliceSplit_total (dataLen selfStart offset : Int) (ok : Bool)
+    (hs : inLen selfStart) (ho : inLen offset) : stringSliceSplit dataLen selfStart offset ok ≠ .panic := by
+  unfold stringSliceSplit; rw [ckUsize_ok (by arith)]; simp
+
+/-- `KotoLexer::peek(n)` with `n ≥ queue_len + 2` underflows … -/
+theorem lexerPeek_panic_witness : lexerPeek 0 2 = .panic := by decide
+
+/-- … and is safe under the parser's discipline (it peeks `0, 1, 2, …` in order, so `n ≤ queue_len`
+at each of its call sites; even `n = queue_len + 1` is safe) -/
+theorem lexerPeek_total (q n : Int) (hq : inLen q) (hn : 0 ≤ n) (hg : n ≤ q + 1) : lexerPeek q n ≠ .panic := by
+  unfold lexerPeek
+  rw [ckUsize_ok (by arith)]; simp only [bind_ok]
+  rw [ckUsize_ok (by arith)]; simp
+
+theorem lexerPeek_panic_iff (q n : Int) (hq : inLen q) (hn : inUsize n) : lexerPeek q n = .panic ↔ q + 1 < n := by
+  unfold lexerPeek
+  rw [ckUsize_ok (by arith)]; simp only [bind_ok]
+  unfold ckUsize
+  constructor
+  · intro h; split at h
+    · cases h
+    · arith
+  · intro h
+    have : ¬ (0 ≤ q + 1 - max n q ∧ q + 1 - max n q ≤ USIZE_MAX) := by arith
+    rw [if_neg this]
+
+/-! ## format_source_excerpt -/
+
+/-- safe for every span the parser and compiler produce: ordered positions, the start line exists
+in the source when the span is on one line, nothing at the `u32` limit -/
+theorem sourceExcerpt_total (nLines sl sc el ec : Int)
+    (h1 : 0 ≤ sl ∧ sl ≤ el ∧ el < U32_MAX) (h2 : 0 ≤ sc ∧ sc < U32_MAX) (h3 : 0 ≤ ec ∧ ec ≤ U32_MAX)
+    (h4 : sl = el → sl < nLines ∧ sc ≤ ec) : sourceExcerpt nLines sl sc el ec ≠ .panic := by
+  unfold sourceExcerpt
+  rw [ckU32_ok (by arith)]; simp only [bind_ok]
+  rw [ckU32_ok (by arith)]; simp only [bind_ok]
+  rw [ckU32_ok (by arith)]; simp only [bind_ok]
+  by_cases he : sl = el
+  · have := h4 he
+    simp only [he, ite_true]
+    have hl : el < nLines := by omega
+    simp only [hl, ite_true, bind_ok]
+    rw [ckUsize_ok (by arith)]; simp only [bind_ok]
+    rw [ckU32_ok (by arith)]; simp only [bind_ok]
+    rw [ckU32_ok (by arith)]; simp only [bind_ok]
+    rw [ckU32_ok (by arith)]; simp
+  · simp only [he, ite_false, bind_ok]
+    rw [ckU32_ok (by arith)]; simp only [bind_ok]
+    rw [ckU32_ok (by arith)]; simp
+
+/-- what the guard excludes: a one-line span on a line that `lines()` does not have (e.g. the line
+after a trailing line break), reversed lines, reversed columns on one line -/
+theorem sourceExcerpt_panic_witness :
+    sourceExcerpt 1 1 0 1 0 = .panic ∧ sourceExcerpt 3 2 0 1 0 = .panic ∧ sourceExcerpt 3 1 5 1 2 = .panic := by decide
+
+example : sourceExcerpt 3 1 2 1 5 = .ok () := by decide
+
+/-! ## ExecutionTimeout -/
+
+theorem timeoutDeadline_total (now limit : Int) (hn : 0 ≤ now ∧ now ≤ 4611686018427387903)
+    (hl : 0 ≤ limit ∧ limit ≤ 4611686018427387903) : timeoutDeadline now limit ≠ .panic := by
+  unfold timeoutDeadline; rw [ckI64_ok (by arith)]; simp
+
+/-- a host setting of `Duration::MAX` (not a script input) -/
+theorem timeoutDeadline_panic_witness : timeoutDeadline 100000 18446744073709551615 = .panic := by decide
+
+/-- the instruction counter is only incremented below the interval -/
+theorem timeoutTick_total (since interval : Int) (hs : 0 ≤ since) (hi : inUsize interval) :
+    timeoutTick since interval ≠ .panic := by
+  unfold timeoutTick
+  split
+  · rw [ckUsize_ok (by arith)]; simp [Res.map']
+  · simp
+
+/-! ## compiler Frame -/
+
+/-- 248 locals + 12 captures (finding F-C05-3 / F-C06-15) -/
+theorem frameNew_panic_witness : frameNew 248 12 0 = .panic := by decide
+
+theorem frameNew_total (l c p : Int) (hl : 0 ≤ l) (hc : 0 ≤ c) (hp : 0 ≤ p) (hsum : 1 + l + c + p ≤ 255) :
+    frameNew l c p = .ok (1 + l + c + p) := by
+  unfold frameNew
+  have h1 : castU8 c = c := by unfold castU8; omega
+  have h2 : castU8 p = p := by unfold castU8; omega
+  rw [h1, h2]
+  rw [ckU8_ok (by arith)]; simp only [bind_ok]
+  rw [ckU8_ok (by arith)]; simp only [bind_ok]
+  rw [ckU8_ok (by arith)]
+
+/-- the allocator's invariant -/
+def FrameInv (f : Frame) : Prop :=
+  0 ≤ f.base ∧ 0 ≤ f.count ∧ f.count ≤ f.used ∧ f.base + f.used ≤ 255
+
+theorem pushRegister_inv (f : Frame) (h : FrameInv f) :
+    ∃ r f', pushRegister f = .ok (r, f') ∧ FrameInv f' := by
+  obtain ⟨h0, h1, h2, h3⟩ := h
+  unfold pushRegister
+  rw [ckU8_ok (by arith)]; simp only [bind_ok]
+  split
+  · exact ⟨none, f, rfl, ⟨h0, h1, h2, h3⟩⟩
+  · rw [ckU8_ok (by arith)]; simp only [bind_ok]
+    refine ⟨_, _, rfl, ?_⟩
+    unfold FrameInv; simp only
+    omega
+
+theorem popRegister_inv (f : Frame) (h : FrameInv f) :
+    ∃ r f', popRegister f = .ok (r, f') ∧ FrameInv f' := by
+  obtain ⟨h0, h1, h2, h3⟩ := h
+  unfold popRegister
+  split
+  · exact ⟨none, f, rfl, ⟨h0, h1, h2, h3⟩⟩
+  · split
+    · split
+      · exact ⟨_, _, rfl, ⟨h0, h1, h2, h3⟩⟩
+      · rw [ckU8_ok (by arith)]; simp only [bind_ok]
+        refine ⟨_, _, rfl, ?_⟩
+        unfold FrameInv; simp only; omega
+    · exact ⟨_, _, rfl, ⟨h0, h1, h2, h3⟩⟩
+
+/-- **no `u8` overflow in the register allocator**: from any frame satisfying the invariant (in
+particular a fresh one with `base ≤ 255`), no sequence of `push_register` / `pop_register` panics,
+and `next_temporary_register`, `available_registers_count`, `registers_used` stay computable -/
+theorem frameRun_total (ops : List FrameOp) (f : Frame) (h : FrameInv f) :
+    ∃ f', frameRun f ops = .ok f' ∧ FrameInv f' := by
+  induction ops generalizing f with
+  | nil => exact ⟨f, rfl, h⟩
+  | cons op ops ih =>
+    unfold frameRun frameStep
+    cases op with
+    | push =>
+      obtain ⟨r, f', hok, hinv⟩ := pushRegister_inv f h
+      simp only [hok, Res.map', bind_ok]
+      exact ih f' hinv
+    | pop =>
+      obtain ⟨r, f', hok, hinv⟩ := popRegister_inv f h
+      simp only [hok, Res.map', bind_ok]
+      exact ih f' hinv
+
+theorem frame_queries_total (f : Frame) (h : FrameInv f) :
+    frameNextTemp f ≠ .panic ∧ frameAvailable f ≠ .panic ∧ frameRegistersUsed f ≠ .panic := by
+  obtain ⟨h0, h1, h2, h3⟩ := h
+  unfold frameAvailable frameNextTemp frameRegistersUsed
+  rw [ckU8_ok (by arith)]; simp only [bind_ok]
+  rw [ckU8_ok (by arith), ckU8_ok (by arith)]; simp
+
+example : FrameInv ⟨250, 0, 0, []⟩ := by unfold FrameInv; simp
+
+/-- `peek_register(n)` with `n ≥ len` underflows (`len - n - 1`) … -/
+theorem peekRegister_panic_witness : peekRegister 0 0 = .panic ∧ peekRegister 2 5 = .panic := by decide
+
+/-- … and is safe for the compiler's only caller (`peek_register(elements.len() - 1)` directly after
+pushing `elements.len() ≥ 1` registers): `n < len` -/
+theorem peekRegister_total (len n : Int) (hl : inLen len) (hn : 0 ≤ n) (hg : n < len) :
+    peekRegister len n = .ok (some (len - n - 1)) := by
+  unfold peekRegister
+  rw [ckUsize_ok (by arith)]; simp only [bind_ok]
+  rw [ckUsize_ok (by arith)]; simp only [bind_ok]
+  have : len - n - 1 < len := by omega
+  simp [this]
+
+end KotoVerif.C06
